@@ -37,6 +37,8 @@ Definition chk_msg (m : msg) (ebytes : option (list Z)) (edec : option msg) (eac
 Definition chk_raw (b : list Z) (edec : option msg) (eacc : list bool) : bool :=
   omsg_eqb (decode b) edec && leqb Bool.eqb (map (fun h => accepts h b) all_handlers) eacc.
 
+(* acceptance only (verbs the library accepts but never builds, and any raw datagram): exactly these handler classes claim it *)
+Definition chk_acc (b : list Z) (eacc : list bool) : bool := leqb Bool.eqb (map (fun h => accepts h b) all_handlers) eacc.
 Definition hello_eqb (a b : hello) : bool :=
   match a, b with
   | HBroadcast, HBroadcast => true
